@@ -17,6 +17,9 @@ SIGS = [
     [['a', 'po', True], ['p', 'pk', True], ['args', 'vp', False], ['k', 'ko', True]],
     [['a', 'po', False], ['b', 'po', True], ['p', 'pk', True]],
     [['p', 'pk', True], ['args', 'vp', False], ['kw', 'vk', False]],
+    # parameter names that helper functions inside the library also use for their own parameters
+    [['fn', 'pk', True], ['func', 'pk', True], ['kwargs', 'ko', True]],
+    [['self', 'pk', True], ['args', 'ko', True], ['cls', 'ko', True], ['kw', 'vk', False]],
 ]
 
 
@@ -70,7 +73,7 @@ class Gen:
       elif p[1] == 'ko' and r.random() < 0.5:
         kwargs[p[0]] = self.value(depth, allow_factory)
     if any(p[1] == 'vk' for p in sig) and r.random() < 0.4:
-      kwargs['extra'] = self.value(depth, allow_factory)
+      kwargs[r.choice(['extra', 'extra', 'fn', 'value'])] = self.value(depth, allow_factory)
     return btype(fn, *args, **kwargs)
 
 
